@@ -1,6 +1,7 @@
 SPECIFICATION Spec
 CONSTANTS
-  Strings <- StringsFew
+  Strings <- StringsAll
+  OpsFrom <- StringsFour
   Others <- OthersFew
   MaxOps = 3
   ExportHist = TRUE
